@@ -306,6 +306,9 @@ int main(int argc, char **argv) {
                and packer is reached:  v vector  r resized(bufcount=nelems)  h hvector  x indexed  b indexed_block  H hindexed
                s 2-D subarray  S struct  n contiguous(nelems, resized)  d dup(vector)  k<n>: contiguous(n) with bufcount nelems/n */
             int typed = !strcmp(lay,"t"); char lk = lay[0]; int k = strchr("vrhxbHsSnd",lk) && lay[1] ? atoi(lay+1) : 1; if (k<1) k=1; int resized = lk=='r';
+            /* U<m>: contiguous elements described as ONE struct of several members of the same type with DIFFERENT block lengths
+               (1, 3, rest ...), bufcount 1;  I<m>: indexed with unequal block lengths over contiguous elements */
+            int ustruct = (lk=='U' || lk=='I') ? 1 : 0;
             int kcont = (lk=='k' && lay[1]) ? atoi(lay+1) : 0;
             size_t rawlen; unsigned char *raw=mkbuf(nelems,k,mt,&rawlen); unsigned char *data=raw+GUARD;
             if (w && colon>=0) { vals_n=nt-colon-1; for (size_t e=0;e<nelems && (long long)e<vals_n;e++) { const char *tk=tok[colon+1+e]; if (is_big_unsigned(tk) && (mt==T_FLOAT||mt==T_DOUBLE)) { if (mt==T_FLOAT) ((float*)data)[e*k]=(float)strtoull(tk,NULL,10); else ((double*)data)[e*k]=(double)strtoull(tk,NULL,10); } else set_elem(data,mt,e*k,parse_val(tk)); } }
@@ -318,6 +321,15 @@ int main(int argc, char **argv) {
             unsigned char *orig=malloc(rawlen); memcpy(orig,raw,rawlen);
             MPI_Datatype bt=mt_mpi(mt); MPI_Offset bc=nelems; int hasdt=0; MPI_Datatype dt=MPI_DATATYPE_NULL;
             if (kcont>1 && !imapspan && nelems>0 && nelems%kcont==0) { MPI_Type_contiguous(kcont,bt,&dt); MPI_Type_commit(&dt); hasdt=1; bt=dt; bc=nelems/kcont; }
+            if (ustruct && !imapspan && nelems>=2) {
+                int n_=(int)nelems; MPI_Aint esz=(MPI_Aint)mt_size[mt]; MPI_Datatype el=bt;
+                int bl[4], nb_=0, used=0; int want[3]={1,3,2};
+                for (int q=0;q<3 && used<n_-1;q++){ int b_=want[q]; if (used+b_>n_-1) b_=n_-1-used; bl[nb_++]=b_; used+=b_; }
+                bl[nb_++]=n_-used;                       /* last member takes the rest (>= 1) */
+                MPI_Aint ad[4]; int di[4]; MPI_Datatype ty[4]; int pos=0; for (int q=0;q<nb_;q++){ ad[q]=(MPI_Aint)pos*esz; di[q]=pos; ty[q]=el; pos+=bl[q]; }
+                if (lk=='U') MPI_Type_create_struct(nb_,bl,ad,ty,&dt); else MPI_Type_indexed(nb_,bl,di,el,&dt);
+                MPI_Type_commit(&dt); hasdt=1; bt=dt; bc=1;
+            } else
             if (strchr("hxbHsSnd",lk) && lay[1] && !imapspan && nelems>0) {
                 int n_=(int)nelems; MPI_Aint esz=(MPI_Aint)mt_size[mt]; MPI_Datatype el=bt, t1;
                 int *bl=malloc(sizeof(int)*n_), *di=malloc(sizeof(int)*n_); MPI_Aint *ad=malloc(sizeof(MPI_Aint)*n_);
